@@ -203,6 +203,8 @@ func runSweepDoc(c *hx.Ctx, idx int, format string, keep bool) {
 		}
 		c.Count("sweep " + format + " configurations")
 	}
+	// the same configurations once more, all on ONE Reader in random order (history.go)
+	runHistory(c, format, path, d, sweepHistory(c.Rng.Fork(uint64(64+fi)<<40|uint64(idx))), kase)
 	for _, b := range d.Blocks {
 		if b.Kind == "heading" {
 			c.Count(fmt.Sprintf("sweep %s heading level=%d", format, b.Level))
